@@ -1368,6 +1368,15 @@ func (x *Exec) havocLoop(st *State, h *ssa.BasicBlock) {
 		r := Const("r!lf", SInt)
 		st.assume(Forall([]BVar{{"r!lf", SInt}}, Implies(Select(st.alloc, r), Eq(Select(st.heap[n], r), Select(old, r)))), "cells of "+n+" allocated before the loop are not written by it (the loop stores only to cells it allocates)")
 	}
+	// earlier iterations may have allocated objects: at the loop head the set of allocated objects is some superset of
+	// the set at loop entry (invariants can say which objects are allocated with allocated(x))
+	{
+		oldAlloc := st.alloc
+		na := x.freshConst(st, "alloc!loop", ArraySort(SInt, SBool))
+		r := Const("r!la", SInt)
+		st.assume(Forall([]BVar{{"r!la", SInt}}, Implies(Select(oldAlloc, r), Select(na, r))), "objects allocated before the loop stay allocated")
+		st.alloc = na
+	}
 	for r := range rangeIters {
 		if it, ok := st.regs[r].(*RangeIter); ok {
 			old := st.ranges[it.ID]
